@@ -1019,6 +1019,52 @@ def _direct_backslash_keys(chk):
                               % (impl["paths"][0], k, res[:2]), case)
 
 
+def _direct_lookalike_keys(chk):
+    """Integer keys next to (in other Hashes of the same document, visited earlier or later) float and Boolean keys that
+    compare equal to them (1 / 1.0 / true, 0 / 0.0 / false): every helper keyed on a key VALUE must keep them apart.  Float and
+    Boolean keys are outside the model's Key type, so this is judged on the real code alone, for the values held under the
+    INTEGER keys: exactly one path is printed for each, and fed back into a query it resolves to exactly that node."""
+    from ruamel.yaml.comments import CommentedMap, CommentedSeq
+    from yamlpath import Processor
+    base = {"sv": True, "sk": False, "sa": False, "ika": True, "iva": False, "expand": False,
+            "km": "values", "am": "keyaliases"}
+
+    def cmap(pairs):
+        m = CommentedMap()
+        for k, v in pairs:
+            m[k] = v
+        return m
+    shapes = []
+    for first in ("floats", "bools", "ints"):
+        parts = {"floats": ("ranks", cmap([(1.0, "f1"), (0.0, "f0"), (2.5, "f2")])),
+                 "bools": ("flags", cmap([(True, "bt"), (False, "bf")])),
+                 "ints": ("slots", cmap([(1, "one"), (0, "zero"), (2, "two")]))}
+        order = [first] + [x for x in ("floats", "bools", "ints") if x != first]
+        shapes.append(cmap([parts[o] for o in order]))
+        shapes.append(cmap([("l", CommentedSeq([cmap([parts[o]]) for o in order]))]))
+    for root in shapes:
+        for fslash in (False, True):
+            for word in ("one", "zero", "two"):
+                term = {"inv": False, "m": "EQUALS", "term": word}
+                opts = dict(base, fslash=fslash)
+                impl = sg.impl_search(root, sg.real_all_anchors(root), term, opts)
+                chk.evaluations += 1
+                chk.count("direct:lookalike-key")
+                case = {"kind": "lookalike-keys", "doc_repr": repr(root), "term": term, "opts": opts}
+                paths = impl.get("paths")
+                if paths is None or len(paths) != 1 or "exc" in impl:
+                    chk.violation("search-missing:lookalike-key", "search_for_paths printed %r for the value %r held under an integer key" % (impl, word), case)
+                    continue
+                try:
+                    got = list(Processor(core.quiet_logger(), root).get_nodes(paths[0], mustexist=True))
+                    ok = len(got) == 1 and got[0].node == word and isinstance(got[0].parentref, int) and not isinstance(got[0].parentref, bool)
+                    shown = [(g.node, g.parentref) for g in got]
+                except Exception as e:  # noqa
+                    ok, shown = False, type(e).__name__
+                if not ok:
+                    chk.violation("reresolve:lookalike-key", "printed path %r does not resolve to the value %r under its integer key (%s)" % (paths[0], word, shown), case)
+
+
 def run(chk: core.Check, tier=None):
     core.use_repo()
     tier = tier or chk.tier
@@ -1097,5 +1143,6 @@ def run(chk: core.Check, tier=None):
             chk.disagreement(sig, w, case)
     if not chk.replay_in:
         _direct_backslash_keys(chk)
+        _direct_lookalike_keys(chk)
     chk.extra_cov["paths_re_resolved"] = resolved
     return chk
